@@ -34,8 +34,8 @@ func (c18Conn) Close() error { return nil }
 
 type c18VM struct {
 	p2pcommon.VersionedManager
-	cid    types.ChainID
-	forks  [3]uint64 // heights at which versions 1,2,3 start
+	cid   types.ChainID
+	forks [3]uint64 // heights at which versions 1,2,3 start
 }
 
 func (v c18VM) GetChainID(no types.BlockNo) *types.ChainID {
@@ -63,7 +63,7 @@ type c18IS struct {
 	ca   c18CA
 }
 
-func (s c18IS) SelfMeta() p2pcommon.PeerMeta           { return s.meta }
+func (s c18IS) SelfMeta() p2pcommon.PeerMeta          { return s.meta }
 func (s c18IS) GetChainAccessor() types.ChainAccessor { return s.ca }
 
 func TestC18Handshake(t *testing.T) {
@@ -122,7 +122,9 @@ func TestC18Handshake(t *testing.T) {
 		case "chainid-magic":
 			st.ChainID = cidBytes(func(c *types.ChainID) { c.Magic += "x" })
 		case "chainid-consensus":
-			st.ChainID = cidBytes(func(c *types.ChainID) { c.Consensus = map[string]string{"dpos": "raft", "raft": "sbp", "sbp": "dpos"}[c.Consensus] })
+			st.ChainID = cidBytes(func(c *types.ChainID) {
+				c.Consensus = map[string]string{"dpos": "raft", "raft": "sbp", "sbp": "dpos"}[c.Consensus]
+			})
 		case "chainid-public":
 			st.ChainID = cidBytes(func(c *types.ChainID) { c.PublicNet = !c.PublicNet })
 		case "chainid-mainnet":
